@@ -23,6 +23,12 @@ Chunking32 == \A k \in Splits : k % 4 = 0 =>
                  Crc32(Crc32(<<seed, 1, 2, 255 - seed>>, A(k)), B(k)) = Crc32(<<seed, 1, 2, 255 - seed>>, msg)
 \* the byte-at-a-time form is the same function (any length, any tail)
 Fast32Same == Fast32(<<seed, 1, 2, 255 - seed>>, msg) = Crc32(<<seed, 1, 2, 255 - seed>>, msg) /\ Fast32(<<255, 255, seed, 0>>, msg \o msg \o <<seed>>) = Crc32(<<255, 255, seed, 0>>, msg \o msg \o <<seed>>)
+\* skipping a run of zero bytes algebraically is the same function: head, zeros, tail of several lengths
+SparseSame == Len(msg) <= 2 => \A nz \in {0, 4, 8, 64, 1000} : \A tl \in {0, 1, 3, 4} :
+                 LET hd == msg \o msg \o msg \o msg          \* a multiple of four bytes
+                     tailb == SubSeq(<<seed, 7, 255, 1>>, 1, tl)
+                 IN Sparse32(<<seed, 1, 2, 255 - seed>>, hd, 0, nz, tailb) = Fast32(<<seed, 1, 2, 255 - seed>>, hd \o [i \in 1..nz |-> 0] \o tailb)
+SparseWide == Len(msg) = 1 => Sparse32(<<seed, 9, 0, 3>>, <<>>, 1, 8, msg) = Fast32(<<seed, 9, 0, 3>>, [i \in 1..65544 |-> 0] \o msg)
 Residue8 == Strm8(seed, Append(msg, Strm8(seed, msg))) = 0
 \* the table-driven integer form of Gstuff.tla is the same function
 SameAsTableForm == Strm8(seed, msg) = Crc8(seed, msg)
